@@ -1,13 +1,16 @@
 package main
 
 import (
+	"errors"
 	"fmt"
 	"os"
 	"os/exec"
 	"sort"
 	"strings"
+	"time"
 
 	"google.golang.org/protobuf/encoding/protojson"
+	"google.golang.org/protobuf/types/known/anypb"
 	"google.golang.org/protobuf/types/known/structpb"
 
 	xds "github.com/kitex-contrib/xds"
@@ -216,10 +219,23 @@ func runC20(c *ctx) {
 		m.VerifWatch(xdsresource.ClusterType, "c1", false)
 		m.VerifWatch(xdsresource.EndpointsType, "e1", false)
 		w.settle()
+		// every kind of request: an acknowledgement, a rejection, the re-subscription after a stream failure, and a
+		// subscription change on the new stream
+		w.push(mkResp(urlOf("cds"), "v1", "n1", []*anypb.Any{anyStamped("cds", "c1", "c1#1")}))
+		w.push(mkResp(urlOf("eds"), "v1", "n2", []*anypb.Any{{TypeUrl: urlOf("eds"), Value: []byte{0xff, 0xff}}}))
+		w.feedErr(errors.New("verif: stream reset"))
+		w.waitFor(func() bool {
+			ads.mu.Lock()
+			defer ads.mu.Unlock()
+			return len(ads.streams) >= 2
+		}, 5*time.Second)
+		w.settle()
+		m.VerifWatch(xdsresource.RouteConfigType, "r1", false)
+		w.settle()
 		var reqs []interface{}
 		ads.mu.Lock()
 		for _, rq := range ads.log {
-			reqs = append(reqs, obj{"rt": rtShort(rq.req.TypeUrl), "nodeId": rq.req.GetNode().GetId(), "meta": structJSON(rq.req.GetNode().GetMetadata())})
+			reqs = append(reqs, obj{"rt": rtShort(rq.req.TypeUrl), "sid": rq.sid, "nodeId": rq.req.GetNode().GetId(), "meta": structJSON(rq.req.GetNode().GetMetadata())})
 		}
 		ads.mu.Unlock()
 		e := obj{}
@@ -254,7 +270,14 @@ func init() {
 		os.Setenv("INSTANCE_IP", "10.0.0.1")
 		var err error
 		p, _ := recoverTo(func() { err = xds.Init() })
-		fmt.Printf("panic=%v err=%v inited=%v\n", p, err != nil, xdssuite.XDSInited())
+		fmt.Printf("panic=%v err=%v inited=%v", p, err != nil, xdssuite.XDSInited())
+		// a failed initialisation stays failed: every further attempt on the same (partly repaired) environment reports it too
+		os.Unsetenv("POD_NAMESPACE")
+		os.Setenv("POD_NAME", "pod-a")
+		p2, _ := recoverTo(func() { err = xds.Init() })
+		fmt.Printf(" again: panic=%v err=%v inited=%v", p2, err != nil, xdssuite.XDSInited())
+		p3, _ := recoverTo(func() { err = xds.Init() })
+		fmt.Printf(" again: panic=%v err=%v inited=%v\n", p3, err != nil, xdssuite.XDSInited())
 		c.k = -1
 	}
 	props["C20child:set-twice"] = func(c *ctx) {
